@@ -244,6 +244,50 @@ func vRunCase4(t *testing.T, c vCase) (msg string) {
 		if !bytes.Equal(s.Encode(), vPad32(want)) {
 			return "HashToScalar(msg=" + c.A + ", |dst|=" + itoa(len(dst)) + ") = " + s.Hex() + ", RFC 9380 gives " + hex.EncodeToString(vPad32(want))
 		}
+	case "h2-layout":
+		// msg / dst placed in caller buffers with the given layout (see harness vh_hash); the oracle works on private copies
+		m0, d0 := vHex(c.A), vHex(c.B)
+		var msg, dst, backing []byte
+		switch c.N {
+		case 1:
+			mb := append(append([]byte{}, m0...), bytes.Repeat([]byte{0x58}, 8)...)
+			db := append(append([]byte{}, d0...), bytes.Repeat([]byte{0x59}, 8)...)
+			msg, dst = mb[:len(m0)], db[:len(d0)]
+			backing = append(mb[:len(mb):len(mb)], db...)
+		case 2:
+			mb := append(append([]byte{1, 2, 3}, m0...), 4, 5, 6, 7, 8)
+			db := append(append([]byte{1, 2}, d0...), 3, 4, 5, 6, 7, 8)
+			msg, dst = mb[3:3+len(m0):3+len(m0)], db[2:2+len(d0):4+len(d0)]
+			backing = append(mb[:len(mb):len(mb)], db...)
+		case 3:
+			fr := append(append([]byte{}, m0...), d0...)
+			msg, dst = fr[:len(m0)], fr[len(m0):]
+			backing = fr
+		default:
+			fr := append(append([]byte{}, d0...), m0...)
+			dst, msg = fr[:len(d0)], fr[len(d0):]
+			backing = fr
+		}
+		_ = backing
+		snapM, snapD := append([]byte{}, msg[:cap(msg)]...), append([]byte{}, dst[:cap(dst)]...)
+		var got, want []byte
+		switch c.Op {
+		case "RO":
+			got = HashToGroup(msg, dst).Encode()
+			want = vSec1(vHashToCurve(m0, d0, true), true)
+		case "NU":
+			got = EncodeToGroup(msg, dst).Encode()
+			want = vSec1(vHashToCurve(m0, d0, false), true)
+		default:
+			got = HashToScalar(msg, dst).Encode()
+			want = vPad32(new(big.Int).Mod(new(big.Int).SetBytes(vExpandXMD(m0, d0, 48)), vN))
+		}
+		if !bytes.Equal(got, want) {
+			return c.Op + " with buffer layout " + itoa(c.N) + " (|msg|=" + itoa(len(m0)) + ", |dst|=" + itoa(len(d0)) + ") = " + hex.EncodeToString(got) + ", RFC 9380 on the same bytes gives " + hex.EncodeToString(want)
+		}
+		if !bytes.Equal(snapM, msg[:cap(msg)]) || !bytes.Equal(snapD, dst[:cap(dst)]) {
+			return c.Op + " with buffer layout " + itoa(c.N) + " modified the caller's buffers"
+		}
 	case "h2-panic":
 		m, dst := vHex(c.A), vHex(c.B)
 		if len(dst) == 0 && c.N == 1 {
